@@ -332,6 +332,26 @@ impl Sim {
         })
     }
 
+    /// phase-1 entry point: the caller supplies the closing transaction
+    pub fn mutual_close_phase1(&mut self, good: bool) -> (Outcome, usize) {
+        use lightning_signer::lightning::ln::chan_utils::ClosingTransaction;
+        self.txn(|s| {
+            let node = s.node();
+            let wallet_path = DerivationPath::from(vec![lightning_signer::bitcoin::bip32::ChildNumber::from_normal_idx(1).unwrap()]);
+            let holder_script = make_test_funding_wallet_addr(&node, 1, SpendType::P2wpkh).script_pubkey();
+            let cp_script = ScriptBuf::from(vec![0u8, 20, 1, 1, 1, 1, 1, 1, 1, 1, 1, 1, 1, 1, 1, 1, 1, 1, 1, 1, 1, 1]);
+            node.with_channel(&s.chan_ctx.channel_id, |chan| {
+                let info = chan.enforcement_state.current_holder_commit_info.as_ref().unwrap();
+                let to_holder = if good { info.to_broadcaster_value_sat } else { info.to_broadcaster_value_sat / 2 };
+                let to_cp = info.to_countersigner_value_sat;
+                let closing = ClosingTransaction::new(to_holder, to_cp, holder_script.clone(), cp_script.clone(), chan.setup.funding_outpoint);
+                let tx = closing.trust().built_transaction().clone();
+                let opaths: Vec<DerivationPath> = tx.output.iter().map(|o| if o.script_pubkey == holder_script { wallet_path.clone() } else { DerivationPath::master() }).collect();
+                chan.sign_mutual_close_tx(&tx, &opaths).map(|_| ())
+            })
+        })
+    }
+
     pub fn allowlist(&mut self, op: &str, kind: &str) -> (Outcome, usize) {
         let good1 = "tb1qhetd7l0rv6kca6wvmt25ax5ej05eaat9q29z7z".to_string();
         let good2 = "tb1qycu764qwuvhn7u0enpg0x8gwumyuw565f3mspnn58rsgar5hkjmqtjegrh".to_string();
@@ -578,6 +598,7 @@ pub fn exec_op(sim: &mut Sim, op: &str) -> (Outcome, usize) {
         ["cpr", d, g] => sim.cp_revoke(num(d), *g == "g"),
         ["sh", d] => sim.sign_holder(num(d)),
         ["mc", g] => sim.mutual_close(*g == "g"),
+        ["mc1", g] => sim.mutual_close_phase1(*g == "g"),
         ["al", op, kind] => sim.allowlist(op, kind),
         ["ks", amt] => sim.keysend(num(amt) as u64, false),
         ["ksdup", amt] => sim.keysend(num(amt) as u64, true),
@@ -618,6 +639,16 @@ pub fn gen_ops(rng: &mut Rng, len: usize) -> Vec<String> {
                 }
                 continue;
             }
+            8 if ops.len() < 6 => {
+                // bring both sides to matching HTLC-free commitments, then close (either entry point)
+                ops.push("vh 0 g 0".to_string());
+                ops.push("rv 0".to_string());
+                ops.push("scp 0 0".to_string());
+                ops.push("scp 0 0".to_string());
+                ops.push("cpr 0 g".to_string());
+                ops.push(format!("mc{} g", if rng.chance(1, 2) { "1" } else { "" }));
+                continue;
+            }
             6 => {
                 // a counterparty whose secrets do not chain: sign n and n+1 for rogue points, then it
                 // "revokes" with secrets that match those points
@@ -649,7 +680,7 @@ pub fn gen_ops(rng: &mut Rng, len: usize) -> Vec<String> {
             9..=11 => format!("scp {} {}", d, rng.below(9)),
             12..=14 => format!("cpr {} {}", d, if rng.chance(3, 4) { "g" } else { "b" }),
             15 => format!("sh {}", *rng.pick(&[0i64, 0, 1, -1])),
-            16 => format!("mc {}", if rng.chance(1, 2) { "g" } else { "b" }),
+            16 => format!("mc{} {}", if rng.chance(1, 2) { "1" } else { "" }, if rng.chance(1, 2) { "g" } else { "b" }),
             17..=19 => format!("al {} {}", rng.pick(&["add", "set", "rm"]), rng.pick(&["g", "g2", "b", "m", "gg"])),
             20..=21 => format!("ks {}", *rng.pick(&[1000u64, 5_000_000, 100_000_000_000, 0])),
             22 => format!("ksdup {}", rng.range(1, 5000)),
